@@ -189,10 +189,10 @@ def typenameVal (b : Base) (d : Declarator) : Val :=
 
 /-! ## contexts -/
 
-inductive DCtx | file | typedef | block | param | member | forInit | cast | sizeofT | alignofT | compoundLit | multi
+inductive DCtx | file | typedef | block | param | member | forInit | cast | sizeofT | alignofT | compoundLit | multi | knr
   deriving Repr, Inhabited, DecidableEq
 
-def DCtx.all : List DCtx := [.file, .typedef, .block, .param, .member, .forInit, .cast, .sizeofT, .alignofT, .compoundLit, .multi]
+def DCtx.all : List DCtx := [.file, .typedef, .block, .param, .member, .forInit, .cast, .sizeofT, .alignofT, .compoundLit, .multi, .knr]
 
 def DCtx.abstract : DCtx → Bool
   | .cast | .sizeofT | .alignofT | .compoundLit => true
@@ -239,6 +239,21 @@ def declCase (b : Base) (d : Declarator) (ctx : DCtx) : String × String :=
     (b.prelude ++ "int v = ( " ++ dt ++ " ) { 0 } ;",
      file [nd .Decl [.str "v", strsV [], strsV [], strsV [], strsV [], typeDecl (some "v") [] (identType ["int"]),
        nd .CompoundLiteral [typenameVal b d, nd .InitList [.list [nd .Constant [.str "int", .str "0"]]]], .none]])
+  | .knr =>
+    -- an old-style definition whose declaration list has three declarations, `base D` in the middle:
+    -- `FuncDef.param_decls` lists every declared parameter, in source order
+    let nm := match d.ident with | some x => x | none => "anon"
+    let longB : Base := { toks := ["long"], quals := [], node := identType ["long"] }
+    let charB : Base := { toks := ["char"], quals := [], node := identType ["char"] }
+    let d3 : Declarator := .ptr [] (.name (some "p3"))
+    let d4 : Declarator := .ptr [] (.ptr [] (.name (some "p4")))
+    (b.prelude ++ "int h ( p1 , " ++ nm ++ " , p3 , p4 ) long p1 ; " ++ dt ++ " ; char " ++
+       " ".intercalate (renderDeclarator d3) ++ " , " ++ " ".intercalate (renderDeclarator d4) ++ " ; { }",
+     file [nd .FuncDef [nd .Decl [.str "h", strsV [], strsV [], strsV [], strsV [],
+         nd .FuncDecl [nd .ParamList [.list [nd .ID [.str "p1"], nd .ID [.str nm], nd .ID [.str "p3"], nd .ID [.str "p4"]]],
+           typeDecl (some "h") [] (identType ["int"])], .none, .none],
+       .list [declVal longB (.name (some "p1")), declVal b d, declVal charB d3, declVal charB d4],
+       nd .Compound [.none]]])
   | .multi =>
     -- shared specifiers: `base D , *second , third [ 2 ] ;`
     let d2 : Declarator := .ptr [] (.name (some "second"))
